@@ -98,6 +98,29 @@ def h_pdhg(cfg, V):
     return _drive(a, lambda al: al.x, cfg["max_iter"])
 
 
+def h_pdhg_state(cfg, V):
+    """inductive form of the PDHG clause: from ANY state (x, u, x_ext) one update; if done() then holds with tol = 0 and the iteration budget
+    not exhausted, the state must be a fixed point (a further update leaves x, u and x_ext unchanged)"""
+    from sigpy import alg, prox
+    Amat = _mat(cfg["A"], V)
+    m, n = Amat.shape
+    y = V.array("y", [m], False)
+    x = V.array("x", [n], False)
+    u = V.array("u", [m], False)
+    xe = V.array("xe", [n], False)
+    tau, sigma = _pos(V, "tau"), _pos(V, "sigma")
+    proxg = prox.L1Reg([n], _pos(V, "lam")) if cfg["g"] == "l1" else prox.NoOp([n])
+    proxfc = prox.L2Reg([m], 1, y=-y)
+    a = alg.PrimalDualHybridGradient(proxfc, proxg, lambda v: Amat @ v, lambda v: Amat.T @ v, x, u, tau, sigma, max_iter=5, tol=0)
+    a.x_ext = xe.copy()
+    a.update()
+    if not a.done():
+        return [("not_stopped", O.const(True))]
+    x1, u1, e1 = np.array(a.x, copy=True), np.array(a.u, copy=True), np.array(a.x_ext, copy=True)
+    a.update()
+    return [("early_stop_only_at_fixed_point", B.and_(O.eq(a.x, x1), O.eq(a.u, u1), O.eq(a.x_ext, e1)))]
+
+
 def h_apprun(cfg, V):
     import sigpy as sp
     Amat = np.array(cfg["A"], dtype=np.float64)
@@ -141,7 +164,7 @@ def h_power(cfg, V):
     return obl
 
 
-HARNESSES = {"cg": h_cg, "gm": h_gm, "pdhg": h_pdhg, "apprun": h_apprun, "power": h_power}
+HARNESSES = {"cg": h_cg, "gm": h_gm, "pdhg": h_pdhg, "pdhg_state": h_pdhg_state, "apprun": h_apprun, "power": h_power}
 
 
 def configs(tier, seed):
@@ -170,10 +193,15 @@ def configs(tier, seed):
                 if mi == 0 and x0 == "sym":
                     continue
                 if not full and mi >= 3 and (x0 == "sym" or g == "l1"):
-                    continue
+                    continue        # 8-30 min each (thorough); the inductive pdhg_state harness covers every history cheaply
+                if mi >= 4 and g == "l1":
+                    continue        # > 1 h: four nested threshold / residual forks
                 add("pdhg", "a1:g=%s:x0=%s:u0=%s:max_iter=%d" % (g, x0, u0, mi), A=[[2]], g=g, x0=x0, u0=u0, max_iter=mi, cost=30)
         if full and mi in (1, 2):
             add("pdhg", "a21:g=l1:x0=zero:u0=zero:max_iter=%d" % mi, A=[[1], [2]], g="l1", x0="zero", u0="zero", max_iter=mi, cost=80)
+    for Aname, Am in (("a1", [[2]]), ("a21", [[1], [2]])) + ((("d2", [[1, 0], [0, 2]]),) if full else ()):
+        for g in ("none", "l1"):
+            add("pdhg_state", "%s:g=%s" % (Aname, g), A=Am, g=g, cost=30)
     for solver in ("ConjugateGradient", "GradientMethod"):
         for mi in ((0, 1, 2) if (solver == "ConjugateGradient" or full) else (0, 1)):
             add("apprun", "%s:max_iter=%d" % (solver, mi), A=[[2, 1], [0, 1]], solver=solver, max_iter=mi)
